@@ -3,6 +3,8 @@ from vlib import core
 from vlib.checks import maps
 
 KF = {"hash": "KF-C18-1", "trie": "KF-C18-2"}
+# recorded findings per implementation: their trigger steps are left out (harness --kf-skip) only while one is still "known"
+KFS = {"hash": {"KF-C18-1"}, "skip": {"KF-C18-3"}, "trie": {"KF-C18-2", "KF-C18-4"}}
 
 
 def closing(keys, maxiter):
@@ -28,12 +30,20 @@ def run(ctx):
             for h in maps.gen(ctx, impl, ks, 2, 3 if i % 2 else 2, [], False, "iter", 24 if q else 40, "simulate",
                               num=(300 if q else 6000), tag="-s%d" % i):
                 hs.append(h + closing(ks, 3))
+        # directed: several removals while removed entries are still held by iterators (the history of the repaired
+        # KF-C18-3, and the shape of tests/check_map.c:test_map_iter_safety), on every implementation
+        hs.append([["IterCreate", 2, 0], ["Put", 3, 2], ["IterNext", 2], ["Rm", 3], ["Put", 1, 2], ["Rm", 1], ["IterNext", 2]] + closing([1, 3], 2))
+        hs.append([["Put", 1, 1], ["Put", 2, 1], ["Put", 3, 1], ["IterCreate", 1, 0], ["IterCreate", 2, 0], ["IterNext", 1], ["IterNext", 1],
+                   ["Rm", 2], ["Rm", 3], ["Rm", 1], ["Put", 5, 2], ["IterNext", 2], ["Put", 7, 2], ["IterNext", 2], ["IterNext", 2], ["IterFree", 2],
+                   ["IterNext", 1], ["IterNext", 1], ["IterNext", 1]] + closing([1, 2, 3, 5, 7], 2))
         if impl == "skip":
             ctx.sample({"impl": impl, "history": maps.to_lines(hs[nx])})
         ctx.log("%s: %d histories (%d exhaustive)" % (impl, len(hs), nx))
         # generated behaviours, with the steps that fall under the recorded finding left out (hashtable, trie)
+        known = {k["id"] for k in core.load_known() if k.get("status") == "known"}
+        skip = ["--kf-skip"] if known & KFS[impl] else []
         ctx.exec_validate(exe, hs, maps.to_lines, "MapTrace.tla", maps.trace_cfg(ctx, impl),
-                          harness_args=[impl, "--kf-skip", "--seed", str(ctx.seed)], label="c18-" + impl)
+                          harness_args=[impl] + skip + ["--seed", str(ctx.seed)], label="c18-" + impl)
     # recorded findings: directed reproducers (run without --kf-skip)
     maps.kf_repro(ctx, exe, "hash", "KF-C18-1", ["Put 1 1", "IterCreate 1 0", "IterNext 1", "Rm 1", "Get 1"],
                   "hashtable: an entry removed while an iterator is parked on it stays visible to get/rm/put and to other iterations until that iterator moves on (Put a; iter parked on a; Rm a; Get a returns the value)")
